@@ -391,7 +391,15 @@ func init() {
 			if i < 2*len(sameSite) {
 				pick = 5 // every listed program at least twice
 			}
+			if i >= 2*len(sameSite) && i%8 == 7 {
+				pick = 6
+			}
 			switch pick {
+			case 6:
+				// the body needs a live context, some cleanups ask for the context too (the `*T` of the generation loop is
+				// reused: what a cleanup leaves behind on it must not reach the next test case); most cases pass or skip
+				prog = mustSX(fmt.Sprintf("((ctxlive 5) (draw b (i 0 %d)) (draw pad (slice (bool) 0 3)) (if (eq b 0) (cleanup (ctx))) (if (eq b 6) (cleanup (cleanup (ctx)))) (if (eq b 7) (cleanup (skip))) (if (eq b 9) (cleanup (emit 9)) (cleanup (skip))) (if (eq b 2) (skip)) (if (eq b 11) (error 1)))", r.pick(6, 12, 30)))
+				m.tag("context-across-test-cases")
 			case 5:
 				prog = mustSX(sameSite[i%len(sameSite)])
 				m.tag("same-site-messages")
